@@ -15,6 +15,8 @@ EXPLANATION = (
     "field of the same name; each map key's value flows into the aggregate field of the same name; duplicate and missing keys reach Err."
     ' R20-field-flow: the value read under map key X (Field variant derived from visit_str) flows into the aggregate field named X.'
 )
+from .common import NEW_WRITERS_NOTE as _NWN
+EXPLANATION = EXPLANATION + _NWN % "20"
 NOT_DECIDED = "equality of values through an arbitrary serde data format (delegated to Vec<u8>/usize/hasher impls)"
 ASSUMPTIONS = ["serde drives visit_map/visit_str only through the Visitor trait; Vec<u8>, usize and the hasher round-trip through their own serde impls"]
 
@@ -43,6 +45,8 @@ def site_obligation(ctx, f, bi, B, R, tb):
 
 
 def run(ctx):
+    from .common import check_new_writers
+    check_new_writers(ctx, "R20-new-writers", ['hyperloglog::HyperLogLog'])
     prog = ctx.prog
     ctor = ctx.anchor(CTOR)
     if ctor is None or ctx.anchor_adt(HLL) is None:
